@@ -845,6 +845,26 @@ fn one_call(sc: &Sc, ctx: &mut Ctx) -> Outcome {
                     ),
                     Err(e) => fail!("spurious-error", "hash_str failed: {:?}", e),
                 }
+                // the same text at every alignment: a slice that starts 1..7 bytes into an
+                // allocation (a field of a larger string) must hash like an owned copy
+                let off = 1 + (sc.data.len() + sc.alg) % 7;
+                let mut padded = String::with_capacity(off + s.len());
+                padded.push_str(&"~~~~~~~"[..off]);
+                padded.push_str(s);
+                ctx.probe("entry-hash_str-unaligned");
+                match alg.hash_str(&padded[off..]) {
+                    Ok(h) => ensure!(
+                        h == ref_digest(sc.alg, &sc.data),
+                        "digest-mismatch-str",
+                        "{} hash_str of {} bytes starting {} bytes into an allocation: got {}, standard gives {}",
+                        ALG_NAMES[sc.alg],
+                        s.len(),
+                        off,
+                        h,
+                        ref_digest(sc.alg, &sc.data)
+                    ),
+                    Err(e) => fail!("spurious-error", "hash_str failed: {:?}", e),
+                }
             }
         }
 
